@@ -86,7 +86,7 @@ NONVACUITY = {
     "C03": ["NV.param_hyps"], "C06": ["NV.param_hyps"], "C14": ["NV.param_hyps"],
     "C08": ["NV.evReb_rebuildHyp"], "C09": ["NV.fresh_trackers"], "C10": ["Gen.monotony_never_incremented", "NV.first_step_ok"],
     "C11": ["NV.init_inv"], "C13": ["NV.unit_change_hyps", "NV.closeAgree_initial"],
-    "C19": ["NV.shift_40"], "C20": ["NV.events_accepted", "NV.init_inv", "NV.param_hyps"],
+    "C19": ["NV.shift_40"], "C20": ["NV.events_accepted", "NV.init_inv", "NV.param_hyps", "NV.negShare_rejected", "NV.negShare_negative_demand"],
 }
 # the demand total read by production / overproduction / orders is the row sum of the demand matrix (Properties/Coherence.lean)
 for _pid in ("C03", "C14", "C06"):
